@@ -444,6 +444,7 @@ def run(ctx, sess):
                         'index up to %s (width %s) x %d bytes exceeds the %d-byte scratch' % (worst[1], worst[0], esz, scratch_bytes)))
     ctx.floor('scratch subscripts', n5, 3)
     realign_reads_rule(ctx, P, f, fd, psz, dts)
+    level0_stats_rule(ctx, P)
 
 
 def single_packer(ctx, P):
@@ -607,3 +608,31 @@ def realign_reads_rule(ctx, P, f, fd, psz, dts):
     ctx.ob('C09.9', not bad, f.name, 'realign reads exactly the bytes of the new samples', f.where(),
            '%d (width, overlap, length) cases traced' % cases if not bad else '; '.join(bad[:2]) + (' (+%d more)' % (len(bad) - 2) if len(bad) > 2 else ''))
     ctx.floor('realign cases traced', cases, 40)
+
+
+def level0_stats_rule(ctx, P):
+    """statistics computed from raw samples skip the NaN samples of a gap, like the stored summaries do"""
+    g = P.fn('jls_core_fsr_statistics')
+    ctx.saw(g, 1)
+    # the sample variable: a local assigned from a dereference of the converted-sample pointer inside the main loop
+    samples = set()
+    for ev in g.stores():
+        lhs, rhs, o = ev.store_parts()
+        l0 = strip_casts(lhs)
+        if rhs is not None and o == '=' and l0.get('op') == 'ref' and l0.get('t') == 'f64':
+            r0 = strip_casts(rhs)
+            if r0.get('op') == 'un' and r0.get('o') == '*':
+                samples.add(l0['name'])
+    n = 0
+    for ev in g.stores():
+        lhs, rhs, o = ev.store_parts()
+        l0 = strip_casts(lhs)
+        if rhs is None or not any(nd.get('op') == 'ref' and nd.get('name') in samples for nd in walk(rhs)):
+            continue
+        if l0.get('op') == 'ref' and l0.get('name') in samples:
+            continue
+        n += 1
+        ok = finite_guarded(g, ev)
+        ctx.ob('C09.4', ok, g.name, 'level-0 accumulation %s' % show(ev.e)[:40], ev.where(),
+               'under an isfinite test' if ok else 'a NaN gap sample enters this accumulation: a window that holds gap samples and written samples returns NaN')
+    ctx.floor('level-0 accumulating statements', n, 3)
